@@ -7,6 +7,7 @@ mod common;
 mod stylefmt;
 mod treegen;
 mod c02;
+mod c14;
 mod c13;
 mod c18;
 mod c15;
@@ -56,6 +57,7 @@ fn main() {
     let mut out = Out::new(&out_dir);
     let extra = match prop.as_str() {
         "C02" => c02::run(&cfg, &mut out),
+        "C14" => c14::run(&cfg, &mut out),
         "C13" => c13::run(&cfg, &mut out),
         "C18" => c18::run(&cfg, &mut out),
         "C15" => c15::run(&cfg, &mut out),
